@@ -23,6 +23,8 @@ def specs(tier):
         J('jd-steady2:H1S1P1K1', 'steady', dict(n=2, journal='file+dump'), dict(H=1, S=1, P=1, K=1), dict(k=2)),
         J('jd-steady2:H2P2K1', 'steady', dict(n=2, journal='file+dump'), dict(H=2, P=2, K=1), dict(k=2)),
         J('jd-fork-steady2-childkill:H1K1Q1P1', 'steady', dict(n=2, journal='file+dump', use_fork=True), dict(H=1, K=1, Q=1, P=1), dict(k=3)),
+        J('jd-lagsnap3-chunk64-sendfault:H2R2X1P1', 'lagging_snap', dict(n=3, journal='file+dump', chunk=64, send_faults=True, kill_only=('n3:1',)),
+          dict(H=2, R=2, X=1, P=1), clauses=CL + ('C09',)),
         J('jd-lagsnap3:H2R1P1', 'lagging_snap', dict(n=3, journal='file+dump'), dict(H=2, R=1, P=1)),
         J('jd-lagsnap3-after2:H3R1P1', 'lagging_snap', dict(n=3, journal='file+dump'), dict(H=3, R=1, P=1), dict(j=3, after=2)),
         J('jd-lagsnap2-chunk64:H2R1P1', 'lagging_snap', dict(n=2, journal='file+dump', chunk=64), dict(H=2, R=1, P=1)),
@@ -47,4 +49,4 @@ def main(tier, seed, job_filter=None):
 
 
 def replay_file(path):
-    return jobs.replay_file_cluster(PROP, path, [dict(s, clauses=CL, extra_monitors=MONS) for s in specs('thorough')])
+    return jobs.replay_file_cluster(PROP, path, [dict({'clauses': CL, 'extra_monitors': MONS}, **s) for s in specs('thorough')])
